@@ -210,7 +210,22 @@ impl<'a> Gen<'a> {
         let n = 1 + self.rng.below(self.o.max_len);
         let mut out = Vec::new();
         for _ in 0..n {
-            out.push(self.node(depth, lv));
+            let node = self.node(depth, lv);
+            let captured = match &node {
+                Node::Capture(name, _) => Some(name.clone()),
+                _ => None,
+            };
+            out.push(node);
+            if let Some(name) = captured {
+                // keep captured text bounded: a capture whose body prints its own previous value,
+                // inside nested loops, otherwise grows exponentially (gigabytes: an allocation abort
+                // of the *workload*, not a defect of the library)
+                out.push(Node::Assign(
+                    name.clone(),
+                    Expr::var(&name),
+                    vec![FilterCall { name: "truncate".into(), args: vec![Expr::int(48), Expr::str("~")] }],
+                ));
+            }
         }
         out
     }
